@@ -33,6 +33,7 @@ type discInst struct {
 	h      http.Handler
 	store  *modelstore.Store
 	host   string // Host header of requests
+	fwd    string // public host named in the Forwarded header ("" = none)
 	issuer string
 	prefix string // path prefix the handler is mounted under
 }
@@ -46,6 +47,9 @@ func (d *discInst) do(method, rawurl string, form url.Values, hdr http.Header) *
 	}
 	req := httptest.NewRequest(method, rawurl, body)
 	req.Host = d.host
+	if d.fwd != "" {
+		req.Header.Set("Forwarded", "for=192.0.2.1;host="+d.fwd+";proto=https")
+	}
 	if method == http.MethodPost {
 		req.Header.Set("Content-Type", "application/x-www-form-urlencoded")
 	}
@@ -75,6 +79,10 @@ func buildDisc(c M) *discInst {
 	case "dynamicHost":
 		d.host, d.issuer = "tenant1.example.test", "https://tenant1.example.test"
 		issuer = op.IssuerFromHost("")
+	case "forwarded":
+		// behind a reverse proxy: every tenant arrives under the same upstream Host, the public host is in the Forwarded header
+		d.host, d.fwd, d.issuer = "upstream.internal:8080", "tenant1.example.test", "https://tenant1.example.test"
+		issuer = op.IssuerFromForwardedOrHost("")
 	}
 	opts := []op.Option{}
 	if S(c, "endpoints") == "custom" {
@@ -107,6 +115,17 @@ func buildDisc(c M) *discInst {
 		h = http.StripPrefix(d.prefix, h)
 	}
 	d.h = h
+	if S(c, "issuer") == "dynamicHost" || S(c, "issuer") == "forwarded" {
+		// another tenant of the same provider has been served before the observed one
+		other := *d
+		if other.fwd != "" {
+			other.fwd = "tenant0.example.test"
+		} else {
+			other.host = "tenant0.example.test"
+		}
+		other.do(http.MethodGet, "https://tenant0.example.test/.well-known/openid-configuration", nil, nil)
+		other.do(http.MethodGet, "https://tenant0.example.test/keys", nil, nil)
+	}
 	return d
 }
 
